@@ -8,6 +8,7 @@
 package mgmt
 
 import (
+	"math"
 	"strconv"
 	"time"
 
@@ -109,6 +110,12 @@ func (r *RIBModule) register(interest *spec.Interest, pitToken []byte, inFace ui
 	}
 
 	expirationPeriod := (*time.Duration)(nil)
+	if params.ExpirationPeriod != nil && *params.ExpirationPeriod > uint64(math.MaxInt64/int64(time.Millisecond)) {
+		core.LogWarn(r, "ExpirationPeriod out of range in ControlParameters for ", interest.Name())
+		response = makeControlResponse(400, "ExpirationPeriod is out of range", nil)
+		r.manager.sendResponse(response, interest, pitToken, inFace)
+		return
+	}
 	if params.ExpirationPeriod != nil {
 		expirationPeriod = new(time.Duration)
 		*expirationPeriod = time.Duration(*params.ExpirationPeriod) * time.Millisecond
